@@ -29,7 +29,7 @@ theorem alloc_fresh {C : Type} (h : Heap C) (c : C) :
     (h.alloc c).2 = h.next ∧ (h.alloc c).1.next = h.next + 1 ∧
     ∀ a, a < h.next → (h.alloc c).1.cells a = h.cells a := by
   refine ⟨rfl, rfl, fun a ha => ?_⟩
-  have : a ≠ h.next := by omega
+  have : a ≠ h.next := Nat.ne_of_lt ha
   simp [Heap.alloc, this]
 
 end Jl.C15
